@@ -411,11 +411,31 @@ pub(crate) fn op_read(slot: usize, buf: &mut [u8]) -> io::Result<usize> {
     Ok(n)
 }
 
+/// One large file (for the block-wise scan of `verify_trailing_zeros`, whose
+/// block size is 1 KiB): when BIG_SLOT names a slot, positional reads of that
+/// slot come from BIG.
+pub(crate) const BIGBYTES: usize = 1100;
+pub(crate) static mut BIG: [u8; BIGBYTES] = [0; BIGBYTES];
+pub(crate) static mut BIG_SLOT: Option<usize> = None;
+
 pub(crate) fn op_read_at(slot: usize, buf: &mut [u8], offset: u64) -> io::Result<usize> {
     let g = fs();
     let f = &g.files[slot];
     let avail = if offset < f.len { f.len - offset } else { 0 } as usize;
     let n = if buf.len() < avail { buf.len() } else { avail };
+    if unsafe { BIG_SLOT } == Some(slot) {
+        let off = offset as usize;
+        if off + n > BIGBYTES {
+            #[cfg(kani)]
+            kani::assume(false);
+            return Ok(0);
+        }
+        // one block copy, not a byte loop: 1024 single-byte updates of a heap
+        // buffer are 1024 nested array-update expressions
+        #[allow(static_mut_refs)]
+        buf[..n].copy_from_slice(unsafe { &BIG[off..off + n] });
+        return Ok(n);
+    }
     let mut i = 0;
     while i < n {
         let p = offset as usize + i;
